@@ -14,7 +14,7 @@ RULE = ("Same episode generator as C07 (delay d in 0..3, latency {0,5,30}s, extr
         "from the exchange). Non-trivial = delay >= 1 or latency > 0, with >= 3 decisions.")
 ASSUMPTIONS = ["bar-shaped streams; latency below the minimum timestep gap"]
 REQUIRED = ["C08:fifo-delay", "C08:latency-pricing"]
-REQUIRED_CATS = ["repeated-episode", "C08:null-executed", "C08:delayed-executed", "discrete", "box", "delay:0", "delay:1", "delay:2", "delay:3",
+REQUIRED_CATS = ["rebuilt-with-other-latency", "repeated-episode", "C08:null-executed", "C08:delayed-executed", "discrete", "box", "delay:0", "delay:1", "delay:2", "delay:3",
                  "latency:5", "latency:30"]
 REQUIRED_HITS = ["Broker.rebalance"]
 TECHNIQUE = "runtime monitoring: executed allocations and trade prices compared with the submitted action sequence and the input quote stream"
@@ -28,7 +28,13 @@ def case(ctx, i, tier):
     discrete = i % 2 == 1
     cfg, outs = epl.ledger_episode(ctx, {"C08"}, chain=(i % 10 == 8), discrete=discrete)
     ctx.nontrivial = len(outs) >= 3 and (cfg["d"] >= 1 or cfg["L"] > 0)
-    if i % 3 == 0:
+    if i % 4 == 1 and not cfg["chain"]:
+        # same Transmitter, new environment, different latency
+        pre = epl.rebuild_with_latency(ctx, cfg, cfg["_prebuilt"][0])
+        if pre is not None:
+            epl.ledger_episode(ctx, {"C08"}, prebuilt=pre)
+            ctx.cat("rebuilt-with-other-latency")
+    elif i % 3 == 0:
         # a second episode on the SAME environment: the null action must again be
         # executed for the first d steps (pending decisions of episode 1 are gone)
         epl.ledger_episode(ctx, {"C08"}, prebuilt=cfg["_prebuilt"])
